@@ -545,7 +545,7 @@ SCENARIOS = {"tunnel": make, "threaded": make_threaded}
 
 
 def run(ctx: Ctx) -> None:
-    bound = 3 if ctx.thorough else 2
+    bound = (3 if ctx.thorough else 2) + int(__import__("os").environ.get("VF_DEEPER", 0))
     steps = 7 if ctx.thorough else 6
     ctx.rule = (
         f"real UDPTunnel / TCPTunnel / SecureTunnel (full session handshake against the simulated secure server; auto-reconnect on/off) connected to a simulated gateway; at each of {steps} quiescent points the environment lets time pass or injects one of "
@@ -571,7 +571,7 @@ def run(ctx: Ctx) -> None:
                 explore(ctx, __name__, "tunnel", (kind, ar, 4, True, "lost"), bound=bound)
             explore(ctx, __name__, "tunnel", (kind, ar, 16 if ctx.thorough else 14, False, "silent"), bound=min(bound, 2))
     # the threaded interface: two loops + executor under one scheduler (vf/dual.py)
-    tb = 3 if ctx.thorough else 2
+    tb = (3 if ctx.thorough else 2) + int(__import__("os").environ.get("VF_DEEPER", 0))
     ctx.bounds["threaded_deviation_bound"] = tb
     for kind in ("udp", "tcp"):
         for fam in ("", "refused"):
